@@ -5,5 +5,6 @@ CONSTANTS
   Alpha = "q3"
   MaxLen = 4
   MaxDepth = 8
+  Lax = FALSE
 INVARIANTS PinnedLiOK
 CHECK_DEADLOCK FALSE
